@@ -13,18 +13,23 @@ Inductive cfg17 := KBuiltin | KVariant (s : schema) | KNop | KNil.
    0 ValidateData(JSON bytes)      1 ValidateData(YAML bytes)     2 ValidateFile(x.json)   3 ValidateFile(x.yaml)
    4 ValidateFile(x.txt with JSON) 5 ValidateReader(JSON)         6 ReadAndValidate(JSON, returned bytes = input)
    7 ValidateType(decoded tree)    8 package-level ValidateData after Set (JSON)
-   9 Validate(spec) — only when the document is the image of a Spec value *)
+   9 Validate(spec) — only when the document is the image of a Spec value
+   10 ValidateFile(.json file under an unusual path: blanks, non-ASCII, '?', '=&;', relative, ...)
+   11 ValidateData(flow-style YAML bytes)
+   12 package-level ValidateReader / ReadAndValidate / ValidateFile(x.json) / ValidateType after Set, in turn
+   (4 is a file holding JSON under some name not ending in ".json"; 8 is ValidateData(JSON) or ValidateFile of that file) *)
 Inductive case17 := C17 (k : cfg17) (d : doc) (obs : list nat).
 
 Definition config_of (k : cfg17) : config :=
   match k with KBuiltin => CfgSchema builtin | KVariant s => CfgSchema s | KNop => CfgNop | KNil => CfgNil end.
 
 Definition eps17 : list (config -> doc -> bool) :=
-  [v_data_json; v_data_yaml; v_file_json; v_file_yaml; v_file_other_json; v_reader; v_reader; v_type; v_data_json; v_type].
+  [v_data_json; v_data_yaml; v_file_json; v_file_yaml; v_file_other_json; v_reader; v_reader; v_type; v_data_json; v_type;
+   v_file_json; v_data_yaml; v_type].
 (* entry points that may be left out: the YAML ones (when the YAML text layer cannot carry the document) and Validate(spec) *)
-Definition optional17 : list bool := [false; true; false; true; false; false; false; false; false; true].
+Definition optional17 : list bool := [false; true; false; true; false; false; false; false; false; true; false; true; false].
 (* the entry points that funnel straight into the schema (no decoding into a map, no content check) *)
-Definition funnel17 : list bool := [false; false; true; false; false; true; true; true; false; true].
+Definition funnel17 : list bool := [false; false; true; false; false; true; true; true; false; true; true; false; true].
 
 Definition verdict_code (b : bool) : nat := if b then 0 else 1.
 
@@ -36,8 +41,34 @@ Fixpoint corr_list (c : config) (d : doc) (eps : list (config -> doc -> bool)) (
   | _, _, _ => false
   end.
 
-Definition corr17 (c : case17) : bool :=
+Definition corr17_spec (c : case17) : bool :=
   match c with C17 k d obs => corr_list (config_of k) d eps17 optional17 obs end.
+
+(* the same, evaluating the two functions all entry points are instances of once per case instead of once per entry
+   point: [codes17 c d] is, member by member, [verdict_code (ep c d)] for ep in eps17 (codes17_eps, by computation) *)
+Definition codes17 (c : config) (d : doc) : list nat :=
+  let rv := verdict_code (run_validate c d) in
+  let rd := verdict_code (run_data c d) in
+  [rd; rd; rv; rd; rd; rv; rv; rv; rd; rv; rv; rd; rv].
+Fixpoint corr_codes (codes : list nat) (opt : list bool) (obs : list nat) : bool :=
+  match codes, opt, obs with
+  | [], [], [] => true
+  | v :: codes', o :: opt', x :: obs' => ((o && Nat.eqb x 3) || Nat.eqb x v) && corr_codes codes' opt' obs'
+  | _, _, _ => false
+  end.
+Definition corr17 (c : case17) : bool :=
+  match c with C17 k d obs => corr_codes (codes17 (config_of k) d) optional17 obs end.
+
+Lemma codes17_eps c d : codes17 c d = map (fun ep => verdict_code (ep c d)) eps17.
+Proof. reflexivity. Qed.
+Lemma corr_codes_list c d eps opt obs :
+  corr_codes (map (fun ep => verdict_code (ep c d)) eps) opt obs = corr_list c d eps opt obs.
+Proof.
+  revert opt obs. induction eps as [|ep eps IH]; intros [|o opt] [|x obs]; cbn; try reflexivity.
+  rewrite IH. reflexivity.
+Qed.
+Lemma corr17_is_spec c : corr17 c = corr17_spec c.
+Proof. destruct c as [k d obs]. unfold corr17, corr17_spec. rewrite codes17_eps. apply corr_codes_list. Qed.
 
 (* ---- the property, on the observed verdicts ---- *)
 Definition ran_all (p : nat -> bool) (obs : list nat) : bool := forallb (fun x => Nat.eqb x 3 || p x) obs.
@@ -62,9 +93,10 @@ Definition agree (r : option nat) (obs : list nat) : bool :=
 Definition oracle17 (c : case17) : bool :=
   match c with
   | C17 k d obs =>
-      Nat.eqb (length obs) 10 && forallb (fun x => negb (Nat.eqb x 2)) obs &&
-      (* one entry point, two encodings: same verdict *)
+      Nat.eqb (length obs) 13 && forallb (fun x => negb (Nat.eqb x 2)) obs &&
+      (* one entry point, two (three) encodings: same verdict; one file route, two paths: same verdict *)
       same_when_run (nth 0 obs 3) (nth 1 obs 3) && same_when_run (nth 4 obs 3) (nth 3 obs 3) &&
+      same_when_run (nth 0 obs 3) (nth 11 obs 3) && same_when_run (nth 2 obs 3) (nth 10 obs 3) &&
       match k with
       | KBuiltin =>
           let r := ref3 builtin d in
